@@ -496,5 +496,43 @@ def rule_l11(repo):
     return scoped_state_rule(repo, 'C12.L11')
 
 
+def rule_l13(repo):
+    """`get_import_order` walks the import lists *recorded in the cache*.  The list recorded for a theory is brought up to date by
+    `load_theory_cache(<that theory>)` (which re-reads a changed file, rule L7) - so whoever asks for the import order of a theory
+    it was handed by name has first to have that theory's entry re-validated: the call of `load_theory_cache` with the same name
+    dominates the call of `get_import_order`.  Asked first, the order is that of the file as it was at the last load; an import added
+    since is missing from the theory that is built, without any error."""
+    res = RuleResult('C12.L13', 'the import order of a theory is asked for only after its own cache entry was re-validated', floor=1)
+    m = repo.module(BASIC)
+    for f in m.all_funcs:
+        if f.parent is not None or f.name in ('load_theory_cache', 'get_import_order'):
+            continue
+        calls = [c for c in walk_no_nested(f.node) if isinstance(c, ast.Call) and call_name(c) == 'get_import_order' and c.args]
+        if not calls:
+            continue
+        cfg = cfg_of(f.node)
+        flow = flow_of(f.node)
+        params = f.params()
+        for i, c in enumerate(calls):
+            passed_on = {x.id for a in c.args[1:] for x in ast.walk(a) if isinstance(x, ast.Name)} | \
+                        {x.id for k in c.keywords for x in ast.walk(k.value) if isinstance(x, ast.Name)}
+            about = [x.id for x in ast.walk(flow.inline(c.args[0])) if isinstance(x, ast.Name) and x.id in params and x.id not in passed_on]
+            about = sorted(set(about))
+            node = cfg.node_for(c)
+            if not about or node is None:
+                continue
+            for p in about:
+                fresh = [n for n in cfg.nodes if n.ast is not None and n is not node and any(
+                    isinstance(x, ast.Call) and call_name(x) == 'load_theory_cache' and x.args and is_name(x.args[0], p)
+                    for h in cfg.headers(n) for x in ast.walk(h))]
+                ok = any(cfg.dominates(n, node) for n in fresh)
+                res.add('%s :: %s :: import-order(%s)#%d' % (BASIC, f.qualname, p, i + 1), ok,
+                        'load_theory_cache(%s, ..) is called on every path to line %d' % (p, c.lineno) if ok else
+                        'line %d asks for the import order of `%s` from the recorded import lists before load_theory_cache(%s, ..) has re-read the file: after the '
+                        'imports of the file were edited, the first load builds the theory from the old list and the items of a new import are silently missing'
+                        % (c.lineno, p, p), '%s:%d' % (BASIC, c.lineno))
+    return res
+
+
 def rules(repo):
-    return [rule_l1(repo), rule_l2(repo), rule_l3(repo), rule_l4(repo), rule_l5(repo), rule_l6(repo), rule_l7(repo), rule_l8(repo), rule_l9(repo), rule_l10(repo), rule_l11(repo), rule_l12(repo)]
+    return [rule_l1(repo), rule_l2(repo), rule_l3(repo), rule_l4(repo), rule_l5(repo), rule_l6(repo), rule_l7(repo), rule_l8(repo), rule_l9(repo), rule_l10(repo), rule_l11(repo), rule_l12(repo), rule_l13(repo)]
